@@ -638,7 +638,9 @@ def file_texts(cfg, with_includes=True):
         incs = {f: [x for x in ls if x != "A"] for f, ls in incs.items()}
 
     def inc_lines(f):
-        return "".join('#include "%s.prophy"\n' % leaf for leaf in real_incs[f]) if with_includes else ""
+        # (some include lines carry a comment that contains quotes)
+        return "".join('#include "%s.prophy"%s\n' % (leaf, ' /* see "%s" */' % leaf if cfg.get("emptyA") or leaf == "B" else "")
+                       for leaf in real_incs[f]) if with_includes else ""
     a = inc_lines("A") + ("// no definitions in this file\n/* only comments */\n" if empty_a else DECL["A"])
     a2 = "const CA = 5;\nenum EA { EA_x = 1, EA_y = 5 };\ntypedef u16 TA;\nstruct SA { u8 x[CA]; EA e; u16 extra; };\n"
     # B's typedef goes on to A's when B includes A: a chain that crosses a nested include when M uses it as a sizer
